@@ -97,7 +97,8 @@ def run : Docs → List Msg → Docs × List Out
 /-! ## the session layer: which documents the editor holds open, and the files on disk
 
 `on_did_open` records the document in `opened_files`, `on_did_close` removes it (the text stays in the
-store: "the client ends its maintenance of the file, it does not delete it").
+store: "the client ends its maintenance of the file, it does not delete it"); an edit that cannot be applied
+removes the document from the store AND from `opened_files`.
 `on_did_change_watched_files` handles one `FileEvent` at a time: events about documents the editor holds
 open and about non-file URIs are skipped; CREATED / CHANGED re-reads the file (a file that is gone by then
 counts as DELETED, anything that is not a readable regular file is ignored); DELETED removes the document
@@ -131,6 +132,12 @@ def sstep (s : Sess) : Ev → Sess × Out
     let opened := match m with
       | .didOpen (.file u) text => if u8sum text > maxFileLen then s.opened else u :: s.opened.filter (fun x => x != u)
       | .didClose (.file u) => s.opened.filter (fun x => x != u)
+      | .didChange (.file u) changes =>
+        -- "Clear file states to minimize pollution of the broken state": a document forgotten after an edit that
+        -- cannot be applied is no longer recorded as open either
+        match lookup s.docs u with
+        | some t => if applyChanges t changes = some none then s.opened.filter (fun x => x != u) else s.opened
+        | none => s.opened
       | _ => s.opened
     ({ docs := r.1, opened := opened }, r.2)
   | .watched (.file u) deleted disk =>
